@@ -12,7 +12,7 @@ PROPS = {
                 kani=['method_try_from_exact', 'version_try_from_exact', 'find_first_match', 'uri_abs_path'],
                 title='No input makes any parsing entry point panic, hang or block'),
     'C04': dict(units=['conn', 'lemmas', 'client'], kani=[], title='Payload and line-length limits are enforced exactly and before buffering'),
-    'C05': dict(units=['response'], kani=['status_code_raw', 'mediatype_as_str', 'header_raw_names'],
+    'C05': dict(units=['response'], kani=['status_code_raw', 'mediatype_as_str', 'header_raw_names', 'deprecation_header_line', 'allow_header_line'],
                 title='Serialized responses are well-formed and self-delimiting'),
     'C06': dict(units=['conn'], kani=[], title='Queued responses reach the stream completely, once, in order'),
     'C07': dict(units=['client'], kani=[], title='A response is delivered only to the connection that sent its request'),
@@ -20,7 +20,9 @@ PROPS = {
     'C11': dict(units=['conn', 'lemmas', 'client'], kani=[], title='A rejected request is never delivered later'),
     'C12': dict(units=['conn', 'lemmas'], kani=[], title='Descriptors passed with a request are delivered once, in order'),
     'C13': dict(units=['conn', 'lemmas', 'client', 'response'], kani=[], title='100 Continue is sent exactly when asked for'),
+    'C14': dict(units=['request', 'lemmas', 'conn', 'response'], kani=['find_first_match'],
+                title='One-shot request parsing agrees with the incremental connection parser'),
     'C16': dict(units=[], kani=['method_try_from_exact', 'version_try_from_exact', 'method_roundtrip', 'version_roundtrip',
-                               'status_code_raw', 'mediatype_as_str', 'mediatype_roundtrip', 'uri_abs_path'],
+                               'status_code_raw', 'mediatype_as_str', 'uri_abs_path'],
                 title='Token and URI functions are exact, case-sensitive and round-trip'),
 }
